@@ -45,6 +45,13 @@ Inductive case :=
         (present : list (Z * bool))       (* Index.Document(id) <> nil, nested index *)
         (qs : list qobs).
 
+(* monomorphic constructors for the cases files (pairs with inferred type arguments are slow to
+   elaborate in large literals) *)
+Definition fld (n : bytes) (ts : list bytes) : bytes * list bytes := (n, ts).
+Definition arr (n : bytes) (es : list node) : bytes * list node := (n, es).
+Definition fent (num : Z) (anc : list Z) (ext : Z) : Z * list Z * Z := (num, anc, ext).
+Definition pres (id : Z) (b : bool) : Z * bool := (id, b).
+
 Fixpoint insert_z (x : Z) (l : list Z) : list Z :=
   match l with
   | [] => [x]
